@@ -1,6 +1,6 @@
 (* C02/Run.v -- executable entry points for the correspondence check and the property oracle.
    Depends on Model (+ WalFormat, Gen_C02) only. *)
-From NV.Common Require Import Base WalFormat.
+From NV.Common Require Import Base WalFormat Crc32Fast.
 From NV.C02 Require Import Model.
 From NV.gen Require Import Gen_C02.
 Open Scope N_scope.
@@ -12,7 +12,7 @@ Definition ser_of (t : tab) (e : wentry) : list byte :=
 Definition deser_of (t : tab) (b : list byte) : option wentry :=
   match find (fun p => list_eqb N.eqb (snd p) b) t with Some p => Some (fst p) | None => None end.
 
-Definition the_cfg : cfg := Cfg gen_ghost_fixed gen_replay_index_fixed gen_tail_repair.
+Definition the_cfg : cfg := Cfg gen_ghost_fixed gen_replay_index_fixed gen_tail_repair gen_put_meta_first.
 
 (* ---------------------------------------------------------------- the property oracle *)
 (* number of calls whose last byte is at or before offset k (= acknowledged before the crash) *)
@@ -31,19 +31,24 @@ Definition oracle_at (lives : list obs) (ends : list N) (k : N) (ro : option obs
    file length right after open (= after tail repair), the log file bytes after the last call,
    recovery observations for crash offsets, and the offset the next generation continues from *)
 Definition gen_rec :=
-  (list op * list bool * list obs * list N * N * list byte * list (N * option obs) * N)%type.
+  (list op * list bool * list obs * list N * N * list byte * list (N * N * N * option obs) * N)%type.
+(* crash observations are run-length encoded by the harness: (from, to, step, observation) means
+   that recovery was run at the offsets from, from+step, .., to and showed this observation each
+   time (step = 1: every byte) *)
+Definition range (a z step : N) : list N :=
+  map (fun i => a + i * step) (N_seq (N.succ ((z - a) / (N.max 1 step)))).
 Definition gens_case := (tab * N * list gen_rec)%type.
 
 Definition gen_oracle (g : gen_rec) : bool :=
   let '(ops, results, lives, ends, base, fbytes, crashes, chosen) := g in
-  forallb (fun kr => oracle_at lives ends (fst kr) (snd kr)) crashes.
+  forallb (fun r => let '(a, z, stp, ro) := r in forallb (fun k => oracle_at lives ends k ro) (range a z stp)) crashes.
 
 (* ---------------------------------------------------------------- the model side *)
 Section M.
 Variable t : tab.
 Variable K : N.
-Notation mstep := (step (ser_of t) crc32 the_cfg).
-Notation mrecover := (recover (deser_of t) crc32 the_cfg).
+Notation mstep := (step (ser_of t) crc32u the_cfg).
+Notation mrecover := (recover (deser_of t) crc32u the_cfg).
 
 Fixpoint run_obs (d : dstore) (ops : list op) : dstore * list bool * list obs * list N :=
   match ops with
@@ -72,7 +77,8 @@ Fixpoint gens_model (d : dstore) (gs : list gen_rec) : N :=
       else if negb (list_eqb obs_eqb (observe K (st d) :: os) lives) then V_MISMATCH
       else if negb (list_eqb N.eqb es ends) then V_MISMATCH
       else if negb (list_eqb N.eqb (file d1) fbytes) then V_MISMATCH
-      else if negb (forallb (fun kr => option_eqb obs_eqb (rec_obs fbytes (fst kr)) (snd kr)) crashes)
+      else if negb (forallb (fun r => let '(a, z, stp, ro) := r in
+                                forallb (fun k => option_eqb obs_eqb (rec_obs fbytes k) ro) (range a z stp)) crashes)
            then V_MISMATCH
       else match rest with
            | [] => V_OK
